@@ -119,6 +119,8 @@ def as_param_path(v, through_calls=True):
             v = v[1]
         elif k == 'call' and through_calls and v[1].get('name') in prov.TRANSPARENT_NAMES and v[2]:
             v = v[2][0]
+        elif k == 'cast' and v[1] in ('Transmute', 'PtrToPtr') and through_calls:
+            v = v[2]          # Box<[T]> deref lowering: NonNull -> *const cast of the pointer field
         else:
             return None
 
